@@ -38,6 +38,17 @@
 //                named) against bundles with the same fields, MORE fields sharing the pattern's fields as
 //                a prefix, FEWER fields, same count but other names / order, other bundle name.  A
 //                field-wise pattern matches only bundles with exactly its fields (names, order).
+//   variadic   : group 5: candidates whose LAST parameter is a variadic tail (OperatorImpl::variadic, rank =
+//                operator_rank(params, true) as make_operator_graph_impl computes it) whose tail pattern re-uses a
+//                variable bound by the fixed prefix (homog(TS[T], *TS[T]), (V, *V), size variable N, two fixed +
+//                tail), or only bindable by a caller-requested output / an initial_resolution ((*TS[T]) -> TS[T]),
+//                next to fallbacks with an independent tail variable, a concrete tail, a bare-variable tail, a
+//                symbolic-size TSL tail and a fixed-arity (TS[T], TS[T]); calls with 1..4 arguments whose tail
+//                agrees / disagrees with the binding (first or last tail argument), empty tail, REF and plain
+//                value in the tail, requested output, initial resolution.  The reference unifier threads ONE
+//                binding through prefix and tail (the statement: every variable one type across all positions).
+//                Where that differs from matching every tail argument on its own copy of the prefix bindings
+//                (only possible for a variable that nothing but the tail binds) the demand has its own id.
 #include <hgraph/types/operator_dispatch.h>
 #include <hgraph/types/metadata/type_registry.h>
 #include <hgraph/types/time_series/endpoint_schema.h>  // time_series_schema_equivalent
@@ -77,8 +88,14 @@
 #ifndef ARGS4
 #define ARGS4 0x1ff  // bit i: (input, requested output) tuple i is in the pool
 #endif
+#ifndef POOL5
+#define POOL5 0x1fff  // bit i: variadic-group candidate i is in the pool
+#endif
+#ifndef ARGS5
+#define ARGS5 0x3fffff  // bit i: variadic-group call i is in the pool
+#endif
 #ifndef ARITIES
-#define ARITIES 15  // bit0: one argument, bit1: two arguments, bit2: field-wise TSB inputs, bit3: requested TSB output
+#define ARITIES 31  // bit0: one argument, bit1: two arguments, bit2: field-wise TSB inputs, bit3: requested TSB output, bit4: variadic tails
 #endif
 #ifndef SZMAX
 #define SZMAX 4  // symbolic sizes range over [0, SZMAX]
@@ -367,7 +384,12 @@ struct Cand {
     Param p[3];
     const Pat *out;
     int kw_slot = -1;  // >= 0: **kwargs collector with pack pattern TSL<TS<int>, fixed = SYMV[slot]>
+    bool variadic = false;   // the LAST parameter is a variadic tail (zero or more trailing arguments)
+    bool tail_free = false;  // variadic: the tail pattern has a variable that the fixed prefix does not bind
 };
+// parameter that argument position i is matched against (the tail parameter for every overflow position)
+int param_index(const Cand &c, int i) { return c.variadic && i >= c.np - 1 ? c.np - 1 : i; }
+bool is_tail_pos(const Cand &c, int i) { return c.variadic && i >= c.np - 1; }
 Param in(const Pat *p) { Param x; x.ts = p; return x; }
 Param sc(SP s, bool dflt = false) { Param x; x.scalar = true; x.sp = s; x.has_default = dflt; return x; }
 
@@ -375,10 +397,10 @@ enum { V = 0, W = 1, S = 2 };
 enum { T = 0, U = 1, K = 2 };
 enum { N = 0, M = 1 };
 
-std::vector<Cand> C1, C2, C3, C4;
+std::vector<Cand> C1, C2, C3, C4, C5;
 // documented "more specific than" pairs (index into C1 / C2): first must rank strictly below second
 struct Ord { int a, b; };
-std::vector<Ord> ORD1, ORD2, ORD3, ORD4;
+std::vector<Ord> ORD1, ORD2, ORD3, ORD4, ORD5;
 
 void build_candidates() {
     const unsigned INT_STR = (1u << SC_INT) | (1u << SC_STR);
@@ -461,12 +483,34 @@ void build_candidates() {
         /* 7*/ {"->TS[T]", 1, {in(tsT())}, tsT()},
     };
     ORD4 = {};
+    // group 5: variadic tails ("*p" = the tail parameter); the last two aggregate members are {variadic, tail_free}
+    C5 = {
+        /* 0*/ {"homog(TS[T],*TS[T])", 2, {in(tsT()), in(tsT())}, tsT(), -1, true, false},
+        /* 1*/ {"indep(TS[T],*TS[U])", 2, {in(tsT()), in(tsU())}, tsT(), -1, true, true},
+        /* 2*/ {"conc(TS[T],*TS[float])", 2, {in(tsT()), in(p_ts(sconc(SC_FLOAT)))}, tsT(), -1, true, false},
+        /* 3*/ {"any(TS[T],*V)", 2, {in(tsT()), in(p_var(V))}, tsT(), -1, true, true},
+        /* 4*/ {"tailvar(*TS[T])->TSint", 1, {in(tsT())}, p_conc(A_TSI), -1, true, true},
+        /* 5*/ {"tailvar(*TS[T])->TS[T]", 1, {in(tsT())}, tsT(), -1, true, true},
+        /* 6*/ {"two(TS[T],TS[U],*TS[U])", 3, {in(tsT()), in(tsU()), in(tsU())}, tsU(), -1, true, false},
+        /* 7*/ {"fixed(TS[T],TS[T])", 2, {in(tsT()), in(tsT())}, tsT()},
+        /* 8*/ {"homogV(V,*V)", 2, {in(p_var(V)), in(p_var(V))}, p_var(V), -1, true, false},
+        /* 9*/ {"sized(TSL[TS[T],N],*TSL[TS[T],N])", 2, {in(p_tsl(tsT(), Z_VAR, N)), in(p_tsl(tsT(), Z_VAR, N))}, tsT(), -1, true, false},
+        /*10*/ {"symtail(TS[T],*TSL[TS[T],F])", 2, {in(tsT()), in(p_tsl(tsT(), Z_FIXED_SYM, Y_F0))}, tsT(), -1, true, false},
+        /*11*/ {"homogint(TS[int],*TS[int])", 2, {in(p_ts(sconc(SC_INT))), in(p_ts(sconc(SC_INT)))}, p_conc(A_TSI), -1, true, false},
+        /*12*/ {"fixed3(TS[T],TS[T],TS[T])", 3, {in(tsT()), in(tsT()), in(tsT())}, tsT()},
+    };
+    ORD5 = {};
 }
 
 // ------------------------------------------------------------------ arguments
 struct Arg { bool scalar; int id; };  // schema id | scalar id (plain value)
-struct ArgTuple { int n; Arg a[2]; int want = -1; };  // want: caller-requested output schema id (-1 = none)
-std::vector<ArgTuple> T1, T2, T3, T4;
+struct ArgTuple {
+    int n;
+    Arg a[4];
+    int want = -1;  // caller-requested output schema id (-1 = none)
+    int init = -1;  // initial_resolution binds scalar variable T to this scalar id (-1 = no initial resolution)
+};
+std::vector<ArgTuple> T1, T2, T3, T4, T5;
 void build_args() {
     for (int s : {A_TSI, A_TSF, A_TSL2I, A_TSL3I, A_TSDI, A_REFI, A_SIG, A_TSB, A_TSD_L2, A_TSL2F, A_TSWI, A_TSD_REF, A_TSS})
         T1.push_back(ArgTuple{1, {{false, s}}});
@@ -496,6 +540,39 @@ void build_args() {
     q(B_A, B_AB);
     q(A_TSI, -1);
     q(A_TSI, B_AX);
+    // group 5 calls: fixed prefix + tail arguments, optional requested output / initial resolution
+    auto v = [](std::initializer_list<int> ss, int want = -1, int init = -1) {
+        ArgTuple x{0, {}};
+        for (int s : ss) x.a[x.n++] = Arg{false, s};
+        x.want = want;
+        x.init = init;
+        T5.push_back(x);
+    };
+    /* 0*/ v({A_TSI});                             // empty tail
+    /* 1*/ v({A_TSI, A_TSI});
+    /* 2*/ v({A_TSI, A_TSF});                       // the tail disagrees with the prefix binding
+    /* 3*/ v({A_TSI, A_TSI, A_TSI});
+    /* 4*/ v({A_TSI, A_TSI, A_TSF});                // first tail argument agrees, the last one does not
+    /* 5*/ v({A_TSI, A_TSF, A_TSF});                // tail homogeneous in itself, not with the prefix
+    /* 6*/ v({A_TSI, A_TSF, A_TSS});                // fully heterogeneous
+    /* 7*/ v({A_TSI, A_TSI, A_TSI, A_TSF});         // three tail arguments, only the last disagrees
+    /* 8*/ v({A_TSI, A_TSI}, A_TSI);                // requested output TS<int>
+    /* 9*/ v({A_TSI, A_TSF}, A_TSI);
+    /*10*/ v({A_TSF, A_TSF}, A_TSI);
+    /*11*/ v({A_TSI, A_TSI}, -1, SC_INT);           // initial resolution T = int
+    /*12*/ v({A_TSI, A_TSF}, -1, SC_INT);
+    /*13*/ v({A_TSF, A_TSF}, -1, SC_INT);
+    /*14*/ v({A_TSL2I, A_TSL2I});
+    /*15*/ v({A_TSL2I, A_TSL2F});
+    /*16*/ v({A_TSL2I, A_TSL3I});                   // the tail disagrees with the size variable
+    /*17*/ v({A_TSI, A_REFI});                      // REF source in the tail
+    /*18*/ v({A_TSI, A_TSL2I});                     // symbolic-size TSL tail
+    /*19*/ v({A_TSI, A_TSL2I, A_TSL3I});
+    /*20*/ v({A_TSF, A_TSI, A_TSI});                // tail homogeneous in itself, not with the prefix (prefix float)
+    {
+        ArgTuple x{2, {{false, A_TSI}, {true, SC_INT}}};  // a plain value in the tail (promotion: unspecified)
+        /*21*/ T5.push_back(x);
+    }
 }
 WiringArg real_arg(const Arg &a) {
     WiringArg w;
@@ -537,22 +614,37 @@ OperatorImpl real_impl(const Cand &c, const std::string &name) {
         impl.has_kwargs_pattern = true;
         impl.kwargs_pattern = TypePattern::tsl(TypePattern::concrete(SCH[A_TSI].meta), (std::size_t)SYMV[c.kw_slot]);
     }
-    impl.rank = operator_dispatch_detail::operator_rank(impl.params);  // as make_operator_impl / the Python bridge do
+    impl.variadic = c.variadic;
+    // as make_operator_impl / the Python bridge do; a variadic candidate's base rank leaves the tail out, as
+    // make_operator_graph_impl does (operator_rank(impl.params, impl.variadic))
+    impl.rank = operator_dispatch_detail::operator_rank(impl.params, impl.variadic);
     return impl;
 }
 
 // reference: does candidate c match the tuple?  1 yes, 0 no, -1 not specified by the statement
-int ref_matches(const Cand &c, const ArgTuple &t, Bind &b) {
+// tail mode (variadic candidates only): M_ONE = one binding threaded through prefix and tail (the statement),
+// M_INDEP = every tail argument against its own copy of the prefix bindings, M_SKIP = tail arguments ignored,
+// M_FRESH = every tail argument against an empty binding (does the tail pattern fit the argument at all)
+enum { M_ONE, M_INDEP, M_SKIP, M_FRESH };
+int ref_matches(const Cand &c, const ArgTuple &t, Bind &b, int mode = M_ONE) {
     int need = 0;
-    for (int i = 0; i < c.np; i++) if (!c.p[i].has_default) need++;
-    if (t.n < need || t.n > c.np) return 0;
+    const int fixed = c.variadic ? c.np - 1 : c.np;
+    for (int i = 0; i < fixed; i++) if (!c.p[i].has_default) need++;
+    if (t.n < need || (!c.variadic && t.n > c.np)) return 0;
+    if (t.init >= 0) b.sc[T] = t.init;
     // a caller-requested output must be matched by the output pattern (output direction; the pool's output
     // patterns contain no SIGNAL / REF, so the structural rules coincide with the input direction's)
     if (t.want >= 0 && !rmatch(c.out, t.want, b)) return 0;
     bool unspec = false;
     for (int i = 0; i < t.n; i++) {
-        const Param &p = c.p[i];
+        const Param &p = c.p[param_index(c, i)];
         const Arg &a = t.a[i];
+        if (is_tail_pos(c, i) && mode != M_ONE && !a.scalar) {
+            if (mode == M_SKIP) continue;
+            Bind scope = mode == M_INDEP ? b : Bind{};
+            if (!rmatch(p.ts, a.id, scope)) return 0;
+            continue;
+        }
         if (p.scalar) {
             if (!a.scalar) return 0;
             if (!rmatch_sp(p.sp, a.id, b)) return 0;
@@ -578,6 +670,7 @@ struct Res {
     int winner = -1;  // position in the family
     int rank = 0;
     bool channels_agree = true;
+    bool tail_ok = true;  // variadic winner: every tail argument matches the tail pattern under the returned map
     unsigned amb = 0, rej = 0;  // masks over family positions (from the observer event)
     ResolutionMap map;
     const TSValueTypeMetaData *out = nullptr;
@@ -604,7 +697,10 @@ Res run_resolve(const Cand *const *fam, int n, const int *perm, const ArgTuple &
     Res r;
     int before = obs.count;
     try {
-        ResolvedOperatorCall rc = reg.resolve(name, std::span<const WiringArg>{args}, std::nullopt, t.want >= 0 ? SCH[t.want].meta : nullptr, {}, {}, &w);
+        ResolutionMap init;
+        if (t.init >= 0) init.bind_scalar(SCVARS[T], SCM[t.init]);
+        ResolvedOperatorCall rc = reg.resolve(name, std::span<const WiringArg>{args}, std::nullopt, t.want >= 0 ? SCH[t.want].meta : nullptr, {}, {}, &w,
+                                              t.init >= 0 ? &init : nullptr);
         r.kind = R_WIN;
         r.winner = rc.impl != nullptr ? pos_of(rc.impl->label, fam, n) : -1;
         r.map = rc.map;
@@ -612,19 +708,27 @@ Res run_resolve(const Cand *const *fam, int n, const int *perm, const ArgTuple &
         r.out = rc.impl != nullptr && rc.impl->has_output ? ts_pattern_resolve(rc.impl->output, rc.map) : nullptr;
         for (int i = 0; i < t.n && rc.impl != nullptr; i++) {
             const TSValueTypeMetaData *s = nullptr;
-            if (!c.p[i].scalar && !has_wildcard(c.p[i].ts)) {
-                int slot = sym_size_slot(c.p[i].ts);
+            const int pi = param_index(c, i);
+            if (!c.p[pi].scalar && !has_wildcard(c.p[pi].ts)) {
+                int slot = sym_size_slot(c.p[pi].ts);
                 if (slot >= 0) {
                     // the size is pinned by the successful match; make it concrete before it is interned
-                    TypePattern copy = rc.impl->params[i].ts;
+                    TypePattern copy = rc.impl->params[pi].ts;
                     std::size_t v = (std::size_t)verif_concretize(SYMV[slot]);
                     if (copy.kind == TypePattern::Kind::TSL) copy.fixed_size = v;
-                    if (copy.kind == TypePattern::Kind::TSW) { copy.fixed_size = v; copy.min_size = (std::size_t)verif_concretize(SYMV[c.p[i].ts->z2]); }
+                    if (copy.kind == TypePattern::Kind::TSW) { copy.fixed_size = v; copy.min_size = (std::size_t)verif_concretize(SYMV[c.p[pi].ts->z2]); }
                     s = ts_pattern_resolve(copy, rc.map);
                 } else {
-                    s = ts_pattern_resolve(rc.impl->params[i].ts, rc.map);
+                    s = ts_pattern_resolve(rc.impl->params[pi].ts, rc.map);
                 }
-                if (s == nullptr) r.channels_agree = false;  // a matched parameter must be substitutable
+                // a matched parameter must be substitutable (a tail whose variable only the tail could bind is
+                // judged by C19.variadic_tail_variable_one_type instead)
+                if (s == nullptr && !(is_tail_pos(c, i) && c.tail_free)) r.channels_agree = false;
+                // the real matcher, under the RETURNED bindings, must accept every tail argument
+                if (is_tail_pos(c, i) && !t.a[i].scalar) {
+                    ResolutionMap scope = rc.map;
+                    r.tail_ok &= input_ts_pattern_match(rc.impl->params[pi].ts, SCH[t.a[i].id].meta, scope);
+                }
             }
             r.subst.push_back(s);
         }
@@ -674,7 +778,9 @@ bool prefix_narrower(const Pat *p, int s) {  // field-wise pattern whose fields 
     return true;
 }
 void check_case(int group, const ArgTuple &t, int n, const Cand *const *fam, const int *famidx, Wiring &w, Obs &obs) {
-    const std::vector<Ord> &ords = group == 1 ? ORD1 : group == 2 ? ORD2 : group == 3 ? ORD3 : ORD4;
+    const std::vector<Ord> &ords = group == 1 ? ORD1 : group == 2 ? ORD2 : group == 3 ? ORD3 : group == 4 ? ORD4 : ORD5;
+    bool ok_tailvar = true, ok_tail = true;
+    bool incons[4] = {false, false, false, false};  // variadic member rejected ONLY because its tail disagrees with a binding
     // ---- each member alone: "matches" and effective rank
     bool m[4];
     int r[4];
@@ -689,6 +795,32 @@ void check_case(int group, const ArgTuple &t, int n, const Cand *const *fam, con
         r[i] = s.rank;
         Bind b;
         int exp = ref_matches(*fam[i], t, b);
+        if (fam[i]->variadic) {
+            const Cand &c = *fam[i];
+            Bind bi, bs, bf;
+            int indep = ref_matches(c, t, bi, M_INDEP), pre = ref_matches(c, t, bs, M_SKIP), fresh = ref_matches(c, t, bf, M_FRESH);
+            const int ntail = t.n - (c.np - 1);
+            if (exp >= 0 && exp != indep) {
+                // only a variable that nothing but the tail binds can make the two readings differ: the statement
+                // (one type per variable across ALL positions) is demanded under its own id
+                verif_reach("variadic_tail_only_variable_readings_differ");
+                ok_tailvar &= (exp == 1) == m[i];
+                exp = -1;
+            } else if (exp == 1) {
+                b = bi;  // what the prefix / requested output / initial resolution bind
+            }
+            if (exp == 1 && m[i] && ntail == 0) verif_reach("variadic_empty_tail_match");
+            if (exp == 1 && m[i] && ntail >= 2 && !c.tail_free) verif_reach("variadic_shared_variable_tail_agrees_match");
+            if (exp == 1 && m[i] && ntail >= 1 && c.tail_free && (t.want >= 0 || t.init >= 0) && c.np == 1) verif_reach("variadic_tail_agrees_with_output_or_initial_binding_match");
+            if (exp == 0 && indep == 0 && pre == 1 && fresh == 1) {
+                incons[i] = !m[i];
+                if (!m[i] && !c.tail_free && t.want < 0 && t.init < 0) verif_reach("variadic_tail_disagrees_with_prefix_binding_rejected");
+                if (!m[i] && !c.tail_free && ntail >= 2) verif_reach("variadic_later_tail_argument_disagrees_rejected");
+                if (!m[i] && c.np == 1 && t.want >= 0) verif_reach("variadic_tail_disagrees_with_requested_output_rejected");
+                if (!m[i] && c.np == 1 && t.init >= 0) verif_reach("variadic_tail_disagrees_with_initial_resolution_rejected");
+                if (!m[i] && c.p[c.np - 1].ts->k == P_TSL && c.p[c.np - 1].ts->zmode == Z_VAR) verif_reach("variadic_tail_disagrees_with_size_variable_rejected");
+            }
+        }
         if (exp >= 0) ok_ref &= (exp == 1) == m[i];
         if (exp == 1 && m[i]) {
             verif_reach("single_match");
@@ -708,6 +840,7 @@ void check_case(int group, const ArgTuple &t, int n, const Cand *const *fam, con
     verif_assert(ok_exc, "C19.no_unexpected_exception");
     verif_assert(ok_ref, "C19.matches_iff_unifiable");
     verif_assert(ok_bind, "C19.bindings_are_the_unifier");
+    verif_assert(ok_tailvar, "C19.variadic_tail_variable_one_type");
 
     // ---- the family under every registration order
     int perm[4] = {0, 1, 2, 3};
@@ -739,9 +872,10 @@ void check_case(int group, const ArgTuple &t, int n, const Cand *const *fam, con
         // bindings really unify / output is the substitution (real *_pattern_resolve, modulo dereference)
         if (x.kind == R_WIN && x.winner >= 0) {
             const Cand &c = *fam[x.winner];
+            ok_tail &= x.tail_ok;
             for (int i = 0; i < t.n; i++) {
-                if (c.p[i].scalar) {
-                    ok_subst &= scalar_pattern_resolve(real_sp(c.p[i].sp), x.map) == SCM[t.a[i].id];
+                if (c.p[param_index(c, i)].scalar) {
+                    ok_subst &= scalar_pattern_resolve(real_sp(c.p[param_index(c, i)].sp), x.map) == SCM[t.a[i].id];
                 } else if (x.subst[i] != nullptr) {
                     const TSValueTypeMetaData *supplied = t.a[i].scalar ? treg.ts(SCM[t.a[i].id]) : SCH[t.a[i].id].meta;
                     // pointer identity modulo dereference; a structural bundle pattern may stand for a nominal bundle
@@ -751,7 +885,7 @@ void check_case(int group, const ArgTuple &t, int n, const Cand *const *fam, con
                 }
             }
             Bind b;
-            int exp = ref_matches(c, t, b);
+            int exp = ref_matches(c, t, b, M_INDEP);  // (for a non-variadic candidate the modes coincide)
             if (exp == 1) ok_out &= x.out != nullptr && x.out == rsubst(c.out, b);
             ok_out &= x.out != nullptr;
             if (t.want >= 0) ok_out &= x.out != nullptr && time_series_schema_equivalent(x.out, SCH[t.want].meta);
@@ -770,6 +904,7 @@ void check_case(int group, const ArgTuple &t, int n, const Cand *const *fam, con
     verif_assert(ok_sets, "C19.ambiguous_and_rejected_sets_exact");
     verif_assert(ok_subst, "C19.bindings_unify_parameters_with_arguments");
     verif_assert(ok_out, "C19.output_is_substitution_of_bindings");
+    verif_assert(ok_tail, "C19.variadic_tail_arguments_match_under_returned_bindings");
 
     // ---- documented specificity orderings between members that both match
     bool ok_doc = true;
@@ -796,12 +931,28 @@ void check_case(int group, const ArgTuple &t, int n, const Cand *const *fam, con
         if (!wc.p[0].scalar && wc.p[0].ts->k == P_TSD && wc.p[0].ts->ch->k == P_TSB) verif_reach("tsb_nested_fieldwise_winner");
         if (t.want >= 0 && wc.out->k == P_TSB) verif_reach("requested_output_tsb_winner");
     }
+    if (group == 5) {
+        bool any_incons = false, var_m = false, fix_m = false, ar1 = false, ar2 = false;
+        for (int i = 0; i < n; i++) {
+            any_incons |= incons[i];
+            var_m |= m[i] && fam[i]->variadic;
+            fix_m |= m[i] && !fam[i]->variadic;
+            ar1 |= m[i] && fam[i]->variadic && fam[i]->np == 2;
+            ar2 |= m[i] && fam[i]->variadic && fam[i]->np == 3;
+        }
+        if (any_incons && first.kind == R_WIN && n >= 2) verif_reach("variadic_inconsistent_call_fallback_wins");
+        if (any_incons && first.kind == R_NOMATCH && n == 1) verif_reach("variadic_inconsistent_call_alone_no_match");
+        if (any_incons && first.kind == R_NOMATCH && n >= 2) verif_reach("variadic_inconsistent_call_family_no_match");
+        if (var_m && fix_m) verif_reach("variadic_and_fixed_arity_both_match");
+        if (ar1 && ar2) verif_reach("variadic_two_prefix_arities_both_match");
+        if (first.kind == R_WIN && fam[first.winner >= 0 ? first.winner : 0]->variadic) verif_reach("variadic_winner");
+    }
     if (n == 4) verif_reach("four_member_family_24_orders");
     if (first.kind == R_NOMATCH) verif_reach("no_match_error");
     if (first.kind == R_AMBIG) verif_reach("ambiguity_error");
     for (int i = 0; i < n; i++) {
         if (fam[i]->kw_slot >= 0 && m[i]) verif_reach("symbolic_rank_member_matches");
-        if (fam[i]->np > t.n && m[i]) verif_reach("default_used");
+        if (fam[i]->np > t.n && m[i] && !fam[i]->variadic) verif_reach("default_used");
     }
 }
 }  // namespace
@@ -814,11 +965,11 @@ static void native_sweep(Wiring &w, Obs &obs) {
     long cases = 0;
     for (auto &sz : SZ) {
         for (int i = 0; i < NSYM; i++) SYMV[i] = sz[i];
-        for (int arity = 1; arity <= 4; arity++) {
+        for (int arity = 1; arity <= 5; arity++) {
             if (!((ARITIES >> (arity - 1)) & 1)) continue;
-            if (arity >= 3 && &sz != &SZ[0]) continue;  // the TSB groups have no symbolic sizes
-            const std::vector<Cand> &pool = arity == 1 ? C1 : arity == 2 ? C2 : arity == 3 ? C3 : C4;
-            const std::vector<ArgTuple> &tuples = arity == 1 ? T1 : arity == 2 ? T2 : arity == 3 ? T3 : T4;
+            if ((arity == 3 || arity == 4) && &sz != &SZ[0]) continue;  // the TSB groups have no symbolic sizes
+            const std::vector<Cand> &pool = arity == 1 ? C1 : arity == 2 ? C2 : arity == 3 ? C3 : arity == 4 ? C4 : C5;
+            const std::vector<ArgTuple> &tuples = arity == 1 ? T1 : arity == 2 ? T2 : arity == 3 ? T3 : arity == 4 ? T4 : T5;
             int P = (int)pool.size();
             for (int ti = 0; ti < (int)tuples.size(); ti++)
                 for (int n = FAMMIN; n <= (FAMMAX < 3 ? FAMMAX : 3); n++)
@@ -859,11 +1010,11 @@ extern "C" int harness_main() {
     SYMV[Y_KF] = verif_range("kw_fixed", 0, SZMAX);
 
     // ---- enumerated shape
-    int arity = 1 + pick_from_mask("arity", (unsigned)ARITIES, 4, 0);  // pool group 1..4
-    const std::vector<Cand> &pool = arity == 1 ? C1 : arity == 2 ? C2 : arity == 3 ? C3 : C4;
-    const std::vector<ArgTuple> &tuples = arity == 1 ? T1 : arity == 2 ? T2 : arity == 3 ? T3 : T4;
-    unsigned pmask = arity == 1 ? (unsigned)POOL1 : arity == 2 ? (unsigned)POOL2 : arity == 3 ? (unsigned)POOL3 : (unsigned)POOL4;
-    unsigned amask = arity == 1 ? (unsigned)ARGS1 : arity == 2 ? (unsigned)ARGS2 : arity == 3 ? (unsigned)ARGS3 : (unsigned)ARGS4;
+    int arity = 1 + pick_from_mask("arity", (unsigned)ARITIES, 5, 0);  // pool group 1..5
+    const std::vector<Cand> &pool = arity == 1 ? C1 : arity == 2 ? C2 : arity == 3 ? C3 : arity == 4 ? C4 : C5;
+    const std::vector<ArgTuple> &tuples = arity == 1 ? T1 : arity == 2 ? T2 : arity == 3 ? T3 : arity == 4 ? T4 : T5;
+    unsigned pmask = arity == 1 ? (unsigned)POOL1 : arity == 2 ? (unsigned)POOL2 : arity == 3 ? (unsigned)POOL3 : arity == 4 ? (unsigned)POOL4 : (unsigned)POOL5;
+    unsigned amask = arity == 1 ? (unsigned)ARGS1 : arity == 2 ? (unsigned)ARGS2 : arity == 3 ? (unsigned)ARGS3 : arity == 4 ? (unsigned)ARGS4 : (unsigned)ARGS5;
     int ti = pick_from_mask("args", amask, (int)tuples.size(), 0);
     const ArgTuple &t = tuples[ti];
     int n = FAMMIN + verif_choice("fam_n", FAMMAX - FAMMIN + 1);
